@@ -729,6 +729,15 @@ def _simplify_part(ctx, exe, dirs):
                 corpus += [l.strip() for l in open(os.path.join(cdir, f)) if l.strip() and not l.startswith(";")]
     progs = corpus + progs
     d0 = dirs["default"]
+    # probe: the exact-arithmetic defect of C04 (most negative fixnum divided by the bignum 2^62, fix pending in
+    # fixes/C04-quotient-min-fixnum-by-bignum.patch) also shows up as a difference between the SPEC interpreter and
+    # every build; it gets its own narrow signature
+    c04_minfix = False
+    if "nosimplify" in dirs:
+        pr = _run_file(dirs["nosimplify"], '(import (scheme base) (scheme write)) (write (list (quotient -4611686018427387904 4611686018427387904) (remainder -4611686018427387904 4611686018427387904)))', "probe")
+        c04_minfix = pr.stdout.strip() != "(-1 0)"
+        if c04_minfix:
+            ctx.note("probe: (quotient/remainder -2^62 2^62) = %s in every build, Z says (-1 0): C04's defect (fixes/C04-quotient-min-fixnum-by-bignum.patch not applied to this tree)" % pr.stdout.strip())
     # ---------------------------------------------------------------- K-inner: analyze / optimize / dump
     text = open(os.path.join(HERE, "..", "harness", "c09_simplify.scm")).read()
     text += "\n".join("(c09-case %d '(lambda () %s))" % (i, p) for i, p in enumerate(progs)) + "\n"
@@ -773,7 +782,11 @@ def _simplify_part(ctx, exe, dirs):
             ctx.broken("inner-correspondence:C09:wf", "analysed program is not well-formed for the model (lambda-set-vars / lambda identities): %s" % progs[i])
         if m_simpl != " ".join(b):
             # decide with the SPEC: does the implementation's output still mean the same?
-            if m_run.startswith("V") and m_run_opt != m_run:
+            if m_run.startswith("V") and m_run_opt != m_run and c04_minfix and "-4611686018427387904" in progs[i] and ("quotient" in progs[i] or "remainder" in progs[i]):
+                ctx.violation("arith:min-fixnum-quotient-remainder-by-bignum", input=progs[i], expected="result/output %s" % m_run,
+                              observed="the constant folder (which runs the VM) computed %s" % m_run_opt, replay=replay,
+                              why="(quotient/remainder -2^62 2^62) is wrong in the VM itself (C04, fixes/C04-quotient-min-fixnum-by-bignum.patch); simplify folds with that value, so the optimised and unoptimised builds still agree")
+            elif m_run.startswith("V") and m_run_opt != m_run:
                 ctx.violation("simplify:changes-meaning", input=progs[i], analysed=" ".join(before[i]), optimized=" ".join(after[i]),
                               expected="result/output %s" % m_run, observed="the simplified AST evaluates (SPEC interpreter) to %s" % m_run_opt,
                               model_simplify=m_simpl, replay=replay,
@@ -796,15 +809,6 @@ def _simplify_part(ctx, exe, dirs):
         outs[v] = _split_cases(r.stdout)
         if len(outs[v]) != len(allp):
             ctx.broken("outer-correspondence:C09:" + v, "build %s ran %d of %d programs (rc=%s): %s" % (v, len(outs[v]), len(allp), r.returncode, r.stderr[-400:]))
-    # probe: the exact-arithmetic defect of C04 (most negative fixnum divided by the bignum 2^62, fix pending in
-    # fixes/C04-quotient-min-fixnum-by-bignum.patch) also shows up as a difference between the SPEC interpreter and
-    # every build; it gets its own narrow signature
-    c04_minfix = False
-    if "nosimplify" in dirs:
-        pr = _run_file(dirs["nosimplify"], '(import (scheme base) (scheme write)) (write (list (quotient -4611686018427387904 4611686018427387904) (remainder -4611686018427387904 4611686018427387904)))', "probe")
-        c04_minfix = pr.stdout.strip() != "(-1 0)"
-        if c04_minfix:
-            ctx.note("probe: (quotient/remainder -2^62 2^62) = %s in every build, Z says (-1 0): C04's defect (fixes/C04-quotient-min-fixnum-by-bignum.patch not applied to this tree)" % pr.stdout.strip())
     pairs = [(v, base, kind) for v, base, kind in [("default", "nosimplify", "simplify"), ("customll", "default", "customll"),
                                                     ("both", "nosimplify", "customll-without-simplify")] if v in outs and base in outs]
     if "nosimplify" not in outs:
